@@ -51,6 +51,23 @@ Theorem C15_message_text_meets_spec :
 Proof. exact shown_meets_spec. Qed.
 Print Assumptions C15_message_text_meets_spec.
 
+(* limits below 5 (negative ones included): the text shown is the plain prefix of max(limit, 0) bytes, never more *)
+Lemma shown_meets_full_spec s l : go_input s l -> exists r, shown s l = Ok r /\ shown_spec_full s l r.
+Proof.
+  intros Hin. destruct (shown_meets_spec s l Hin) as (r & Hr & Hspec). exists r. split; [exact Hr|].
+  split; [exact Hspec|]. intros Hlong Hsmall.
+  assert (Hin' : go_input s (eff_len l)).
+  { destruct Hin as [Hrg Hs]. split; [|exact Hs]. unfold eff_len.
+    destruct (l =? 0); [|exact Hrg]. unfold int_range, int_min, int_max. split; lia. }
+  unfold shown in Hr. rewrite effective_len_is_spec in Hr.
+  exact (truncate_short s (eff_len l) r Hin' Hsmall Hlong Hr).
+Qed.
+
+Theorem C15_message_text_meets_full_spec :
+  forall s l, go_input s l -> exists r, shown s l = Ok r /\ shown_spec_full s l r.
+Proof. exact shown_meets_full_spec. Qed.
+Print Assumptions C15_message_text_meets_full_spec.
+
 Theorem C15_suggestions_never_truncated_and_messages_are :
   forallb site_ok gen_render_sites = true /\ gen_truncate_calls_in_render = 1 /\ gen_truncate_calls_guarded = 1.
 Proof. exact (conj render_sites_ok truncate_call_is_guarded). Qed.
